@@ -27,7 +27,9 @@ TRUSTED = ('compilation-database model: a rule is abstracted to (tool command, a
            'emitter model: an Edge is abstracted to its attribute dump (harness/c03.py abstract_step); the spelling of .stamp / .dir '
            'names is taken from the real Path.addext / parent / append (C12)',
            'real GNU Make 4.3 and dash execute the Makefile with the compiler/linker/archiver replaced by the argv recorder',
-           'documented backend-specific additions removed before comparing: -fdiagnostics-color (Ninja), depfile post-processing (Make)')
+           'documented backend-specific additions removed before comparing: -fdiagnostics-color (Ninja), depfile post-processing (Make)',
+           'GNU Make variable-lookup model Make/MakeTVars.v (validated against /usr/bin/make by ./check C01, stage R:make tvars) '
+           'and the parser of the variable lines of a written Makefile (harness/c01tv.py)')
 NINJA_ONLY_FLAGS = {'-fdiagnostics-color'}
 INTERNAL = re.compile(r'(\.stamp$|/\.dir$|^\.dir$|^PHONY$|\.d$|^Makefile$|^build\.ninja$|^\.bfg_find_deps$)')
 
@@ -247,6 +249,11 @@ def run(rep):
     if dis_e and not rep.n_with_input:
         _, bad_e2 = c03.stage_w_emit(rep, random.Random(rng.random()), 2000 if thorough else 300, tag='W:emit widened')
         found += bad_e2
+    # the Make side of the flag agreement for a target built on behalf of any dependent (C06_make_flags_any_goal): the lines
+    # flags_vars and the rule handlers write against the W model, the theorem's conclusion on the real text, real make
+    from . import c01tv
+    dis_t, bad_t = c01tv.run_stages(rep, random.Random(rep.seed * 7919 + 18), thorough, r_stage=False)
+    found += bad_t
     n = 24 if thorough else 4
     for i in range(n * (3 if dis else 1)):
         found += one_project(rep, rng, i, odd_names=(i % 2 == 1))
@@ -267,6 +274,10 @@ def run(rep):
     if dis and not rep.n_with_input:
         i, call, iv, mv = dis[0]
         rep.fail('W:%s - model and implementation disagree (%d cases), e.g. %r: impl %r, model %r' % (call[0], len(dis), call[1], iv, mv),
+                 {'obligation': 'W:' + call[0], 'call': call, 'impl': iv, 'model': mv}, found_input=False)
+    if dis_t and not found:
+        i, call, iv, mv = dis_t[0]
+        rep.fail('W:%s - flag-line model and implementation disagree (%d cases), e.g. %r: impl %r, model %r' % (call[0], len(dis_t), call[1], iv, mv),
                  {'obligation': 'W:' + call[0], 'call': call, 'impl': iv, 'model': mv}, found_input=False)
 
 
